@@ -168,6 +168,7 @@ type uEnv struct {
 	nActivity    int             // pacer updates / rate callbacks seen so far
 	failInjected bool            // the transport-side RTCP writer fails every write the chain originates
 	failStreams  map[uint32]bool // local streams whose transport-side RTP writer always fails
+	slowRTCP     atomic.Int64    // nanoseconds the transport-side RTCP writer takes per write (0: returns at once)
 	bindGen      map[uint32]int  // how many transport-side RTP writers have been handed out per local stream (under mu)
 	statsGetter  stats.Getter
 	okW, okR     map[uint32]int // successful application writes / reads per SSRC
@@ -555,22 +556,34 @@ func (e *uEnv) wireRTP(s uint32) interceptor.RTPWriter {
 
 func (e *uEnv) wireRTCP() interceptor.RTCPWriter {
 	return interceptor.RTCPWriterFunc(func(pkts []rtcp.Packet, _ interceptor.Attributes) (int, error) {
+		slow := time.Duration(e.slowRTCP.Load())
+		closedAtEntry := false
+		if slow > 0 { // a slow RTCP transport: the write began when it was called, whatever happens while it takes its time
+			e.mu.Lock()
+			closedAtEntry = e.closed
+			e.mu.Unlock()
+			time.Sleep(slow)
+		}
 		e.mu.Lock()
 		defer e.mu.Unlock()
+		closed := e.closed
+		if slow > 0 {
+			closed = closedAtEntry
+		}
 		app := len(pkts) > 0 && e.curRTCP != nil && pkts[0] == e.curRTCP
 		if e.rb != nil && !app {
 			e.rb.capRTCP(pkts)
 		}
 		if !app && e.failInjected {
 			if !e.quiet && !e.nowire {
-				e.out.Emit(vfM{"a": "wire", "t": "rtcp", "s": 0, "app": false, "failed": true, "closed": e.closed, "pkt": vfM{}, "sum": uSumRTCP(pkts)})
+				e.out.Emit(vfM{"a": "wire", "t": "rtcp", "s": 0, "app": false, "failed": true, "closed": closed, "pkt": vfM{}, "sum": uSumRTCP(pkts)})
 			}
 
 			return 0, errUInner
 		}
 		if app && e.failNow {
 			if !e.quiet {
-				e.out.Emit(vfM{"a": "wire", "t": "rtcp", "s": 0, "app": true, "failed": true, "closed": e.closed, "pkt": vfM{}, "sum": uSumRTCP(pkts)})
+				e.out.Emit(vfM{"a": "wire", "t": "rtcp", "s": 0, "app": true, "failed": true, "closed": closed, "pkt": vfM{}, "sum": uSumRTCP(pkts)})
 			}
 
 			return 0, errUInner
@@ -579,7 +592,7 @@ func (e *uEnv) wireRTCP() interceptor.RTCPWriter {
 			e.wireApp = append(e.wireApp, vfM{"n": len(pkts)})
 		}
 		if !e.quiet && !e.nowire {
-			e.out.Emit(vfM{"a": "wire", "t": "rtcp", "s": 0, "app": app, "failed": false, "closed": e.closed, "pkt": vfM{}, "sum": uSumRTCP(pkts)})
+			e.out.Emit(vfM{"a": "wire", "t": "rtcp", "s": 0, "app": app, "failed": false, "closed": closed, "pkt": vfM{}, "sum": uSumRTCP(pkts)})
 		}
 
 		return len(pkts), nil
@@ -1256,6 +1269,8 @@ func uRunX(t *testing.T, sc *uScript, out *vfWriter, scribble, quiet bool, rb *u
 			}
 		case "wait":
 			time.Sleep(time.Duration(st.Ms) * time.Millisecond)
+		case "sloww": // C11: from now on the transport-side RTCP writer takes ms milliseconds per write
+			e.slowRTCP.Store(int64(time.Duration(st.Ms) * time.Millisecond))
 		case "failw": // C11: the RTCP writer starts (ms != 0) / stops failing for feedback the chain writes itself
 			e.mu.Lock()
 			e.failInjected = st.Ms != 0
